@@ -83,15 +83,25 @@ def replay_one(w, obs, coin='bitcoin', h0=0):
     return probs, r
 
 
-def traced_run(w, rng, n, cb, s, e, nfiles=3, coin='bitcoin', h0=0, stall=None):
-    blocks = chains.std_chain(n, coin, h0=h0)
-    d = datadir.DataDir(w.sub('dd'), coin)
-    for i, b in enumerate(blocks):
-        fno = rng.randrange(nfiles)
-        off = d.place(fno, b['raw'])
-        d.record(b['hdr'], h0 + i, datadir.ACTIVE, len(b['txs']), fno, off)
-    d.core_extras()
-    d.write()
+def traced_run(w, rng, n, cb, s, e, nfiles=3, coin='bitcoin', h0=0, stall=None, equal=False):
+    if equal:
+        # blocks of identical size, appended without padding to files that do not fill in lock step: block h+1 often starts in
+        # another file at exactly the offset where block h ended in its own
+        blocks = datadir.linear_chain(n, txs_fn=lambda h: [btc.coinbase(h, btc.p2pkh(h.to_bytes(4, 'big') * 5))])
+    else:
+        blocks = chains.std_chain(n, coin, h0=h0)
+    if equal:
+        from lib import layout
+        d = layout.materialise(w.sub('dd'), blocks, layout.random_placement(rng, n, nfiles, 'random'), rng, coin=coin, pad=False,
+                               fileno={f: f for f in range(nfiles)}, namer=lambda k: 'blk%05d.dat' % k)
+    else:
+        d = datadir.DataDir(w.sub('dd'), coin)
+        for i, b in enumerate(blocks):
+            fno = rng.randrange(nfiles)
+            off = d.place(fno, b['raw'])
+            d.record(b['hdr'], h0 + i, datadir.ACTIVE, len(b['txs']), fno, off)
+        d.core_extras()
+        d.write()
     tr = w.sub('trace')
     dump = w.mk('out') if cb in FILECB else None
     r = run.run_parser(d.path, cb, dump=dump, coin=coin, start=s if s else None, end=e, trace=tr, skip='spend,create,eval,dump_row,bal_row',
@@ -227,10 +237,13 @@ def main(ck, tier, w):
             (('csvdump', '3:10400'), ('unspentcsvdump', '2:10400,5:10400'), ('balances', '1:10400,2:10400,6:10400'), ('simplestats', '4:10400'), ('opreturn', '4:10400')):
         jobs.append((8, cb, 1, None, random.Random(stall), 0, stall))
 
+    for i in range(3 if quick else 12):
+        jobs.append((60, ['csvdump', 'opreturn', 'simplestats'][i % 3], [0, 7, 0][i % 3], None, random.Random('%d-eq-%d' % (run.seed(), i)), 0, 'equal'))
+
     def tjob(j):
         n, cb, s, e, r0 = j[:5]
         h0 = j[5] if len(j) > 5 else 0
-        tr, r = traced_run(w, r0, n, cb, s, e, h0=h0, stall=j[6] if len(j) > 6 else None)
+        tr, r = traced_run(w, r0, n, cb, s, e, h0=h0, stall=j[6] if len(j) > 6 and j[6] != 'equal' else None, equal=len(j) > 6 and j[6] == 'equal')
         return j, tr, r
     ran = chains.pmap(tjob, jobs, 12)
     verdicts = tracecheck.validate_many([x[1] for x in ran], batch=3)
